@@ -7,7 +7,6 @@ package dir
 
 // The directory repository, seen through this package's interface: the registered write directories
 // (ghost set world.dirReg of paths, world.dirCnt per root) and their current fill.
-//@ ghost field (world).dirCnt map[string]int
 
 //@ iface dirRepository.GetRoots
 //@   params ctx
